@@ -68,6 +68,7 @@ pub enum Case {
     C11(crate::prop::c11::StreamCase),
     C07(crate::prop::c07::BudgetCase),
     C15(crate::prop::c15::HistoryCase),
+    C17(crate::prop::c17::RenderCase),
 }
 
 #[derive(Clone, Debug, Serialize, Deserialize)]
